@@ -55,7 +55,9 @@ func H_c14_decode() {
 	payload := symBytes(symInt(0, symParam("P", 3)))
 	typ := [...]string{"ARQ", "FEC", "IDF", "ERR"}[symInt(0, 3)]
 	raw := refDataFrame(serial, typ, payload)
-	rd := bufio.NewReader(bytes.NewReader(raw))
+	// the host link delivers the frame in two pieces, split at every position
+	split := symInt(1, len(raw))
+	rd := bufio.NewReader(&splitReader{b: append([]byte(nil), raw...), first: split})
 	var fType byte = 'd'
 	if serial {
 		fType, _ = rd.ReadByte()
@@ -265,4 +267,28 @@ func H_c14_write_big() {
 	symAssert(announced == r.n, "returned-count-equals-bytes-framed")
 	symAssert(bytes.Equal(f[2:], p[:r.n]), "frame-carries-the-first-n-bytes-written")
 	symReach("end")
+}
+
+// reader that returns the stream in two pieces
+type splitReader struct {
+	b     []byte
+	first int
+	calls int
+}
+
+func (r *splitReader) Read(p []byte) (int, error) {
+	if len(r.b) == 0 {
+		return 0, io.EOF
+	}
+	n := len(r.b)
+	if r.calls == 0 && r.first < n {
+		n = r.first
+	}
+	r.calls++
+	if n > len(p) {
+		n = len(p)
+	}
+	copy(p, r.b[:n])
+	r.b = r.b[n:]
+	return n, nil
 }
